@@ -1,12 +1,21 @@
 #!/bin/bash
-# usage: tools/run_seeds.sh [seed ...]  — runs, for every kept seed, the check of its own property
-# (plus any extra listed in seeded/<id>/also) against a scratch copy with the change applied.
+# usage: tools/run_seeds.sh [seed ...]  — for every kept seed, runs the check of its own property
+# (plus any listed in seeded/<id>/also) against a scratch copy with the change applied and reports the
+# violation keys that are NEW relative to the unchanged /repo.
 cd /verif
 seeds=${@:-$(ls seeded)}
+base=/var/tmp/imverif-baseline-$$; mkdir -p $base
+keys() { grep -E "^  rule=|checker failure" | sed -E 's/ at=[^ ]+//' | sort -u; }
 for s in $seeds; do
   prop=${s%%-*}
   also=$(cat seeded/$s/also 2>/dev/null)
-  out=$(MUT_LINES=400 tools/mut.sh seeded/$s/patch.diff $prop $also 2>&1)
-  n=$(echo "$out" | grep -c "^VIOLATION")
-  if [ "$n" -gt 0 ]; then echo "CAUGHT  $s ($n): $(echo "$out" | grep -m1 -A1 '^  rule=' | tr '\n' ' ' | cut -c1-260)"; else echo "MISSED  $s: $(echo "$out" | tail -1 | cut -c1-200)"; fi
+  new=""
+  for c in $prop $also; do
+    [ -f $base/$c ] || IMVERIF_EVIDENCE=$base/ev bin/imverif check $c 2>&1 | keys > $base/$c
+    MUT_LINES=4000 tools/mut.sh seeded/$s/patch.diff $c 2>&1 | keys > $base/mut.$c
+    d=$(comm -13 $base/$c $base/mut.$c)
+    [ -n "$d" ] && new="$new$(echo "$d" | sed "s/^/    [$c]/")"$'\n'
+  done
+  if [ -n "$new" ]; then echo "CAUGHT  $s"; echo -n "$new" | cut -c1-250 | head -6; else echo "MISSED  $s"; fi
 done
+rm -rf $base
